@@ -155,6 +155,19 @@ def _find_search_optimizations(filters):
     prohibited_ids = set()
 
     for filter_ in filters:
+        # Only a type name or ID (or, for "in", a list of them) says which
+        # directories and files can match; any other kind of value (e.g.
+        # text given to "in", which means a substring test) is left to the
+        # filter itself.
+        if filter_.op == "in":
+            usable = isinstance(filter_.value, (tuple, list)) and all(
+                isinstance(v, str) for v in filter_.value
+            )
+        else:
+            usable = isinstance(filter_.value, str)
+        if not usable:
+            continue
+
         if filter_.property == "type":
             if filter_.op in ("=", "in"):
                 allowed_types = _update_allow(allowed_types, filter_.value)
